@@ -501,7 +501,15 @@ pub fn outline_entry(rng: &mut Rng, known: &[(&str, usize)], fresh: &[(&str, usi
         1 => {
             // inductive lemma  forall N X (N >= n -> F)
             let c = FCfg { preds: &lemma_preds, vars: &[("N", fol::Sort::Integer), ("X", fol::Sort::General), ("N", fol::Sort::General)], syms: &["a"] };
-            let body = f_formula(rng, &c, 2);
+            let mut body = f_formula(rng, &c, 2);
+            if rng.chance(70) {
+                // make sure the induction variable occurs free in the body (otherwise the lemma is rejected)
+                let occ = fol::Formula::AtomicFormula(fol::AtomicFormula::Comparison(fol::Comparison {
+                    term: fol::GeneralTerm::IntegerTerm(fol::IntegerTerm::Variable("N".into())),
+                    guards: vec![fol::Guard { relation: fol::Relation::Greater, term: fol::GeneralTerm::IntegerTerm(fol::IntegerTerm::Numeral(-5)) }],
+                }));
+                body = bin(fol::BinaryConnective::Conjunction, body, occ);
+            }
             let n = rng.range(-2, 2) as isize;
             let iv = if rng.chance(90) { "N" } else { "I" };
             let term: fol::GeneralTerm = match rng.weighted(&[12, 1, 1]) {
